@@ -8,6 +8,7 @@ from ..core import AnalysisError, norm, calls_in, call_name, last_attr, walk_no_
 from ..consteval import Env, fold, try_fold, Unknown, fold_module_sequence, FuncRef, module_env
 from ..absint import Iv, Bytes, DataView, Evaluator, Top, ShortRead, run_paths
 from ..fmt import code_range, sstruct_parse
+from ..cfg import guard_conditions
 
 
 def _covers(parts, lo, hi):
@@ -524,6 +525,69 @@ def f5_subr_bias(ctx, repo):
             node = None
     want = [(1240, 107), (33900, 1131), (None, 32768)]
     ctx.ob("F5-bias", f.where, f"(threshold,bias) = {pairs}", pairs == want, "" if pairs == want else f"expected {want} (Adobe TN5177 §4.7; biases are the one/two/three-byte operand class limits 107, 1131, 32768)")
+
+
+
+def f5_offsize(ctx, repo):
+    ctx.rule("F5-offsize", "calcOffSize picks the smallest offset width that can hold the largest offset: n bytes exactly when largestOffset < 256**n (strict), 4 otherwise", floor=1)
+    mod = repo.mod("cffLib/__init__.py")
+    f = mod.func("calcOffSize")
+    cenv = module_env(repo, mod)
+    arg = f.node.args.args[0].arg
+    arms = []
+    node = next((st for st in f.node.body if isinstance(st, ast.If)), None)
+    while node is not None:
+        t = node.test
+        lim = None
+        if isinstance(t, ast.Compare) and len(t.ops) == 1 and norm(t.left) == arg:
+            k = try_fold(t.comparators[0], cenv)
+            if isinstance(k, int):
+                lim = k - 1 if isinstance(t.ops[0], ast.Lt) else k if isinstance(t.ops[0], ast.LtE) else None
+        v = [try_fold(s.value, cenv) for s in node.body if isinstance(s, (ast.Assign, ast.Return)) and s.value is not None]
+        arms.append((lim, v[0] if v else None))
+        if len(node.orelse) == 1 and isinstance(node.orelse[0], ast.If):
+            node = node.orelse[0]
+        else:
+            v = [try_fold(s.value, cenv) for s in node.orelse if isinstance(s, (ast.Assign, ast.Return)) and s.value is not None]
+            arms.append((None, v[0] if v else None))
+            node = None
+    want = [(0xFF, 1), (0xFFFF, 2), (0xFFFFFF, 3), (None, 4)]
+    ctx.ob("F5-offsize", f.where, f"(largest offset admitted, offSize) = {arms}", arms == want, "" if arms == want else f"expected {want}: an offset equal to 256**n does not fit n bytes")
+
+
+def f5_rebias(ctx, repo):
+    ctx.rule("F5-rebias", "subroutine renumbering decodes call operands with the bias of the old INDEX and re-encodes them with the bias of the pruned one: _old_bias = calcSubrBias(subrs), _new_bias = calcSubrBias(subrs._used), operand := R._used.index(operand + R._old_bias) - R._new_bias with one receiver per operator", floor=4)
+    mod = repo.mod("cffLib/transforms.py")
+    f = mod.func("remove_unused_subroutines")
+    got = {}
+    for st in ast.walk(f.node):
+        if isinstance(st, ast.Assign) and isinstance(st.targets[0], ast.Attribute) and st.targets[0].attr in ("_old_bias", "_new_bias"):
+            got[st.targets[0].attr] = (norm(st.targets[0].value), norm(st.value))
+    o, n = got.get("_old_bias"), got.get("_new_bias")
+    ok = o is not None and o[1] == f"calcSubrBias({o[0]})"
+    ctx.ob("F5-rebias", f.where, f"_old_bias = {o and o[1]}", ok, "" if ok else "the old bias must come from the INDEX as it was when the charstrings were encoded")
+    ok = n is not None and o is not None and n[0] == o[0] and n[1] == f"calcSubrBias({n[0]}._used)"
+    ctx.ob("F5-rebias", f.where, f"_new_bias = {n and n[1]}", ok, "" if ok else "the new bias must come from the list of subroutines that survive (its length decides the bias bracket)")
+    g = mod.func("_cs_subset_subroutines")
+    rew = {}
+    for st in ast.walk(g.node):
+        if isinstance(st, ast.Assign) and isinstance(st.targets[0], ast.Subscript) and isinstance(st.value, ast.BinOp):
+            ops = [norm(t) for t, pol in guard_conditions(st) if pol]
+            rew[ops[-1] if ops else "?"] = st
+    for opname, recv in (("callsubr", g.node.args.args[1].arg), ("callgsubr", g.node.args.args[2].arg)):
+        st = next((v for k, v in rew.items() if f"'{opname}'" in k), None)
+        want = None
+        if st is not None:
+            tgt = norm(st.targets[0])
+            want = f"{recv}._used.index({tgt} + {recv}._old_bias) - {recv}._new_bias"
+        ok = False
+        if st is not None:
+            adds = [norm(b.right.value) for b in ast.walk(st.value) if isinstance(b, ast.BinOp) and isinstance(b.op, ast.Add) and isinstance(b.right, ast.Attribute) and b.right.attr.endswith("_bias")] + [norm(b.left.value) for b in ast.walk(st.value) if isinstance(b, ast.BinOp) and isinstance(b.op, ast.Add) and isinstance(b.left, ast.Attribute) and b.left.attr.endswith("_bias")]
+            addattrs = [b.right.attr for b in ast.walk(st.value) if isinstance(b, ast.BinOp) and isinstance(b.op, ast.Add) and isinstance(b.right, ast.Attribute) and b.right.attr.endswith("_bias")] + [b.left.attr for b in ast.walk(st.value) if isinstance(b, ast.BinOp) and isinstance(b.op, ast.Add) and isinstance(b.left, ast.Attribute) and b.left.attr.endswith("_bias")]
+            subs = [(norm(b.right.value), b.right.attr) for b in ast.walk(st.value) if isinstance(b, ast.BinOp) and isinstance(b.op, ast.Sub) and isinstance(b.right, ast.Attribute) and b.right.attr.endswith("_bias")]
+            idx = [norm(c.func.value) for c in calls_in(st.value) if isinstance(c.func, ast.Attribute) and c.func.attr == "index"]
+            ok = adds == [recv] and addattrs == ["_old_bias"] and subs == [(recv, "_new_bias")] and idx == [recv + "._used"]
+        ctx.ob("F5-rebias", g.where, f"{opname}: {norm(st.value) if st is not None else None}", ok, "" if ok else f"expected {want}")
 
 
 # ---------------------------------------------------------------------------
